@@ -62,7 +62,10 @@ class SchedRun:
         kw = {k: X.var(k) for k in PARAMS}
         if name == "new_ltf_plan": kw["num_patch_pts"] = None
         s.st = St()
-        s.out = s.I.call_key(s.key, [], kw, s.st)
+        from . import values as _v
+        _v.UNIFORM_CONDS[0] = True
+        try: s.out = s.I.call_key(s.key, [], kw, s.st)
+        finally: _v.UNIFORM_CONDS[0] = False
         s.env = s.I.last_env.get(s.key, {})
         loops = [sm for k, sm in s.I.loop_summaries.items() if isinstance(k, int) and sm.get("is_while")]
         s.loop = loops[0] if loops else None
